@@ -89,7 +89,70 @@ def make_env(cls: dict):
     return env
 
 
+class CtorRunner:
+    """Constructor-option sweep: every combination of the documented observation options of a built-in environment must
+    declare the space its observations actually have (shape, dtype, structure) — decided abstractly (`jax.eval_shape`),
+    so a run costs milliseconds for `reset` and a few seconds for one `step`."""
+
+    def __init__(self, cls: dict):
+        self.cls = cls
+        mod, name = ENVS[cls["env"]]
+        self.ctor = getattr(importlib.import_module(mod), name)
+        self.flags = list(cls["flags"])
+
+    def gen(self, rng, prop: str) -> dict:
+        ops = [{"op": "ctor", "kwargs": {f: rng.random() < 0.5 for f in self.flags}, "wrap": rng.random() < 0.5, "step": i == 0, "key": rng.getrandbits(31)} for i in range(rng.randint(2, 4))]
+        # one flag differing from all the others (two sites keyed on different flags only disagree on such combinations)
+        odd = rng.choice(self.flags)
+        v = rng.random() < 0.5
+        ops.append({"op": "ctor", "kwargs": {f: (v if f != odd else not v) for f in self.flags}, "wrap": False, "step": False, "key": rng.getrandbits(31)})
+        return {"scenario": NAME, "cls": self.cls, "ops": ops, "faults": []}
+
+    def shrink_candidates(self, plan: dict):
+        if len(plan["ops"]) > 1:
+            for i in range(len(plan["ops"])):
+                p = copy.deepcopy(plan)
+                p["ops"].pop(i)
+                yield p
+
+    @staticmethod
+    def _sig(tree):
+        return [(tuple(x.shape), str(x.dtype)) for x in jax.tree.leaves(tree)]
+
+    def execute(self, plan: dict, props: set | None = None) -> RunResult:
+        res = RunResult(Trace())
+        name = self.cls["env"]
+        for op in plan["ops"]:
+            env = self.ctor(**op["kwargs"])
+            if op["wrap"]:
+                env = W.TimeLimit(env, 10)
+            canon = env.observation_space.canonical()
+            state, obs, _ = jax.eval_shape(lambda k: env.reset(key=k), jr.key(op["key"]))
+            res.trace.ev("ctor", env=name, kwargs=op["kwargs"], wrap=op["wrap"], obs=[list(a) + [b] for a, b in self._sig(obs)])
+            res.events["E.nondefault_constructor_options"] += 1
+            res.steps += 1
+            ok = jax.tree.structure(obs) == jax.tree.structure(canon) and self._sig(obs) == self._sig(canon)
+            if ok and op["step"]:
+                _, obs2, r, te, tu, _ = jax.eval_shape(lambda s, a, k: env.step(s, a, key=k), state, env.action_space.canonical(), jr.key(op["key"]))
+                ok = self._sig(obs2) == self._sig(canon)
+                if (tuple(r.shape), r.dtype.kind) != ((), "f"):
+                    res.fail("C02", "reward_finite_scalar", "reward_not_a_float_scalar", env=name, kwargs=op["kwargs"], dtype=str(r.dtype), shape=list(r.shape))
+                if (tuple(te.shape), str(te.dtype), tuple(tu.shape), str(tu.dtype)) != ((), "bool", (), "bool"):
+                    res.fail("C02", "flags_bool_scalar", "flags_not_boolean_scalars", env=name, kwargs=op["kwargs"])
+            if not ok:
+                res.fail("C02", "obs_dtype_shape", "observation_shape_or_dtype_differs_from_declared_space", env=name, kwargs=op["kwargs"],
+                         got=[[list(a), b] for a, b in self._sig(obs)], declared=[[list(a), b] for a, b in self._sig(canon)])
+            else:
+                res.ok("C02", "obs_dtype_shape")
+        return res
+
+
 class Runner:
+    def __new__(cls_, cls: dict):
+        if cls.get("mode") == "ctor":
+            return CtorRunner(cls)
+        return super().__new__(cls_)
+
     def __init__(self, cls: dict):
         self.cls = cls
         self.env = make_env(cls)
